@@ -35,7 +35,8 @@ class Fraction:
         elif b < 0:
             a, b = -a, -b
 
-        while abs(a - round(a)) > SMALL:
+        # the tolerance is relative to the numerator: numerators below SMALL are scaled too, not rounded to 0
+        while abs(a - round(a)) > SMALL * min(1.0, abs(a)):
             a *= 10
             b *= 10
         a = round(a)
